@@ -3,6 +3,7 @@
     returns the line the harness is expected to print. Glue; no theorem is about it. *)
 From Coq Require Import List String NArith Bool Arith.
 From FP Require Import Model.Chars Model.Ast Model.Sexp Model.Parse Model.Compile Model.Ser.
+From FP Require Import Spec.GuileReader.
 Import ListNotations.
 Local Open Scope string_scope.
 Local Open Scope list_scope.
@@ -59,6 +60,20 @@ Definition split_clock (fields : list str) : list str * N :=
   match rev fields with
   | (64 :: n) :: r => (rev r, dec_value n)
   | _ => (fields, 0)
+  end.
+
+(** serialisation of what the specified Guile reader returns on a text (oracle for the search of
+    a failing input: run on the IMPLEMENTATION's text) *)
+Fixpoint ser_sexp (x : sexp) : str :=
+  match x with
+  | SAtom a => w "a:" ++ join [46] (map print_hex a)
+  | SStr u => w "s:" ++ join [46] (map print_hex u)
+  | SList l => w "(" ++ join sp (map ser_sexp l) ++ w ")"
+  end.
+Definition obs_read (text : str) : str :=
+  match read_all text with
+  | Some forms => words (w "READ" :: map ser_sexp forms)
+  | None => w "READ-FAIL"
   end.
 
 Definition run_case (line : str) : str :=
@@ -118,6 +133,8 @@ Definition run_case (line : str) : str :=
         | None => w "BAD-CASE"
         end
       else if tok_is kind "Z" then w "slept"
+      else if tok_is kind "RD" then
+        match args with a :: _ => obs_read (unhex a) | [] => w "BAD-CASE" end
       else if tok_is kind "V" then
         match de_time args with
         | Some (Time u _, _) => words [w "secs"; print_dec (time_secs u)]
